@@ -195,7 +195,7 @@ pub fn check_components(b: &Built, rec: &Recorder, c: &mut Counters, deep_scc: b
 }
 
 pub fn c10_families(tier: &str) -> Vec<(Family, bool)> {
-    let mut v = vec![];
+    let mut v: Vec<(Family, bool)> = primed_small("u", 3).into_iter().chain(route_small("u", true)).chain(hist_small("u", true)).map(|f| { let d = f.kind.directed; (f, d) }).collect();
     if tier == "quick" {
         for n in 0..=3 {
             for k in kinds_all() {
